@@ -873,7 +873,8 @@ def correspond(ctx, res):
     nrand = ctx.n(3, 12)
     for _ in range(nrand):
         worlds.append(random_world(ctx.rng))
-    for _ in range(ctx.n(2, 8)):
+    # (not scaled by the search factor: double faults on long traces are quadratic)
+    for _ in range(8 if ctx.tier == "thorough" else (4 if ctx.budget_factor > 1 else 2)):
         tree_idx.add(len(worlds))
         worlds.append(random_tree_world(ctx.rng))
     batch = Batch(ctx, res)
@@ -885,7 +886,7 @@ def correspond(ctx, res):
                 # family `tree`: the walks over other processes; every single fault, and every double
                 # fault on the small cyclic world (quick) / everywhere (thorough)
                 calls = [c for c in calls_for(ps, ctx.tier, all_attrs=False) if c["method"] in TREE_METHODS]
-                n = explore_world(ctx, res, bw, calls, thorough or wi == nfixed - 1, batch)
+                n = explore_world(ctx, res, bw, calls, ctx.tier == "thorough" or wi == nfixed - 1, batch)
                 res.count("family:tree", n)
                 total += n
                 calls = []
